@@ -12,6 +12,7 @@ serial_asyncio.open_serial_connection are substituted in the harness process onl
 from __future__ import annotations
 
 import asyncio
+import os
 import selectors
 
 # ---------------------------------------------------------------------------------------------------
@@ -500,7 +501,18 @@ class Session:
                 finally:
                     hb.cancel()
             try:
-                loop.run_until_complete(wrapper())
+                from .common import HANGS, HangDetected, hang_guard
+                n_hangs = len(HANGS)
+                try:
+                    with hang_guard(float(os.environ.get("VF_SESSION_HANG_S", "180"))):
+                        loop.run_until_complete(wrapper())
+                    if len(HANGS) > n_hangs:
+                        # the guard fired inside a task (asyncio stores a BaseException in the task and carries on)
+                        raise HangDetected(HANGS[-1])
+                except HangDetected as e:
+                    # real time stood still inside one loop step: some callback (a decode, for instance) never returned
+                    outcome = "hang"
+                    self.errors.append(f"a loop step did not finish: {e}")
             except SpinDetected as e:
                 outcome = "spin"
                 self.errors.append(str(e))
